@@ -2,7 +2,17 @@ import json
 from contextlib import suppress
 from typing import Union
 
-from pydantic import BaseModel, ConfigDict, Field, StrictFloat, ValidationError, field_validator, model_validator
+from datetime import date, datetime
+
+from pydantic import (
+    BaseModel,
+    BeforeValidator,
+    ConfigDict,
+    Field,
+    ValidationError,
+    field_validator,
+    model_validator,
+)
 from typing_extensions import Annotated
 
 from pycfmodel.model.base import FunctionDict
@@ -12,12 +22,27 @@ from pycfmodel.model.types import (
     Resolvable,
     ResolvableArnOrList,
     ResolvableBoolOrList,
-    ResolvableDateOrList,
-    ResolvableDatetimeOrList,
     ResolvableIntOrList,
     ResolvableIPOrList,
     ResolvableStrOrList,
 )
+
+def _not_a_number(value):
+    """In a generic property only ISO text is a date or a timestamp: numbers and numeric text are not epochs."""
+    if isinstance(value, (int, float)):
+        raise ValueError("A number is not a date")
+    if isinstance(value, str):
+        try:
+            float(value)
+        except ValueError:
+            return value
+        raise ValueError("Numeric text is not a date")
+    return value
+
+
+FiniteFloat = Annotated[float, Field(strict=True, allow_inf_nan=False)]
+TextDate = Annotated[date, BeforeValidator(_not_a_number)]
+TextDatetime = Annotated[datetime, BeforeValidator(_not_a_number)]
 
 AuxType = Annotated[
     Union[
@@ -25,9 +50,9 @@ AuxType = Annotated[
         Properties,
         ResolvableBoolOrList,
         ResolvableIntOrList,
-        InstanceOrListOf[Resolvable[StrictFloat]],  # a number that is not an integer stays a number (not an epoch)
-        ResolvableDateOrList,
-        ResolvableDatetimeOrList,  # Date can be parsed as Datetime in pydantic v2 so should be ordered accordingly
+        InstanceOrListOf[Resolvable[FiniteFloat]],  # a number that is not an integer stays a number (not an epoch)
+        InstanceOrListOf[Resolvable[TextDate]],
+        InstanceOrListOf[Resolvable[TextDatetime]],  # Date can be parsed as Datetime in pydantic v2 so should be ordered accordingly
         ResolvableIPOrList,
         ResolvableArnOrList,
         ResolvableStrOrList,
